@@ -19,6 +19,14 @@ else:
 wordsize = ctypes.sizeof(ctypes.c_size_t)
 
 
+class InconsistentSnapshot(AssertionError):
+    """A consistency check on what we read from a frame failed. These are
+    real checks, not debugging aids: when a frame that is running on another
+    thread moves on while we're looking at it, they are what tells us to
+    start over rather than follow a stale pointer. So they are raised
+    explicitly, and happen under ``python -O`` as well."""
+
+
 # This is the layout of the start of a frame object. It has a couple
 # fields we can't access from Python, especially f_valuestack and
 # f_stacktop.
@@ -150,10 +158,13 @@ def inspect_frame(frame: FrameType) -> FrameDetails:
 
         try:
             if frame.f_lasti == -1:
-                assert snapshot.f_lasti == -1
+                if not (snapshot.f_lasti == -1):
+                    raise InconsistentSnapshot
             else:
-                assert snapshot.f_lasti * offset_mult == frame.f_lasti
-            assert 0 <= snapshot.f_iblock <= 20
+                if not (snapshot.f_lasti * offset_mult == frame.f_lasti):
+                    raise InconsistentSnapshot
+            if not (0 <= snapshot.f_iblock <= 20):
+                raise InconsistentSnapshot
 
             if executing:
                 # Frames that are currently executing have a NULL stacktop (a
@@ -162,13 +173,14 @@ def inspect_frame(frame: FrameType) -> FrameDetails:
                 stack_len = co.co_stacksize
             else:
                 stack_top_offset = frame_raw.f_stacktop - id(frame)
-                assert stack_start_offset <= stack_top_offset <= end_offset
+                if not (stack_start_offset <= stack_top_offset <= end_offset):
+                    raise InconsistentSnapshot
                 stack_len = (stack_top_offset - stack_start_offset) // wordsize
 
             # Process blocks on the current block stack
             for idx in range(snapshot.f_iblock):
                 block = snapshot.blocks[idx]
-                assert (
+                if not (
                     0 < block.b_type <= 257
                     and (
                         # EXCEPT_HANDLER blocks (type 257) can have a bogus b_handler
@@ -177,7 +189,8 @@ def inspect_frame(frame: FrameType) -> FrameDetails:
                         < len(co.co_code)
                     )
                     and 0 <= block.b_level <= stack_len
-                )
+                ):
+                    raise InconsistentSnapshot
 
                 # Looks like a valid block -- is it a finally block?
                 if block.b_type == dis.opmap["SETUP_FINALLY"]:
@@ -208,9 +221,12 @@ def inspect_frame(frame: FrameType) -> FrameDetails:
                     # ends up with the f_lasti of the instruction that
                     # raised. But its blocks are popped on the way out, and
                     # its state changes when it finishes.)
-                    assert f_lasti.value == snapshot.f_lasti
-                    assert f_iblock.value == snapshot.f_iblock
-                    assert f_state.value == snapshot.f_state
+                    if not (f_lasti.value == snapshot.f_lasti):
+                        raise InconsistentSnapshot
+                    if not (f_iblock.value == snapshot.f_iblock):
+                        raise InconsistentSnapshot
+                    if not (f_state.value == snapshot.f_state):
+                        raise InconsistentSnapshot
                     try:
                         # Read the PyObject* from memory and take a reference
                         # to it, in one atomic operation
@@ -221,9 +237,12 @@ def inspect_frame(frame: FrameType) -> FrameDetails:
                         obj = None
                     details.stack.append(obj)
                 _verif_hook("inspect_frame:post_stack", frame)
-                assert f_lasti.value == snapshot.f_lasti
-                assert f_iblock.value == snapshot.f_iblock
-                assert f_state.value == snapshot.f_state
+                if not (f_lasti.value == snapshot.f_lasti):
+                    raise InconsistentSnapshot
+                if not (f_iblock.value == snapshot.f_iblock):
+                    raise InconsistentSnapshot
+                if not (f_state.value == snapshot.f_state):
+                    raise InconsistentSnapshot
             else:
                 # Suspended: map the addresses on the stack back to actual
                 # objects with gc.get_referents(), which is the safest way.
